@@ -90,6 +90,7 @@ func genC20(c *Ctx) *Plan {
 	if !hasS2 {
 		p.YieldOff = append(p.YieldOff, "shutdown2")
 	}
+	p.Cfg.AliveDel = r.chance(0.5) // an accepting AliveDelegate: a preemption point if it is ever called without the node lock
 	return p
 }
 
